@@ -58,19 +58,20 @@ THEOREMS = [
      "forall (h : host_cfg) (fs : bytes -> option bytes) (m : meth) (ov : option bytes) (p : bytes) (r : reply) (ev : list event) (c : bytes), "
      "serve h fs m ov None p = (r, ev) -> r_err r = Some c -> fs (error_path h (r_status r)) = Some c"),
     ("history_bodies_confined",
-     "forall (c : pcfg) (root cwd P : pos) (ops : list op), benign_host (pc_host c) -> wf_pos root -> wf_pos cwd -> "
+     "forall (f : front) (c : pcfg) (root cwd P : pos) (ops : list op), benign_host (pc_host c) -> wf_pos root -> wf_pos cwd -> "
      "pc_fs c = read_path root cwd -> resolve_path root cwd (h_path (pc_host c) ++ [c_slash] ++ h_public (pc_host c)) = Some P -> "
-     "Forall (answer_ok c P) (run_history c empty_state ops)"),
+     "Forall (answer_ok c P) (run_history_with f (fmt_std c) c empty_state ops)"),
     ("unsafe_request_is_400_in_every_state",
-     "forall (c : pcfg) (st : pstate) (m t : bytes) (k : N) (p : bytes) (q : option bytes), target_uri t = Some (p, q) -> "
+     "forall (f : front) (c : pcfg) (st : pstate) (m t : bytes) (k : N) (p : bytes) (q : option bytes), f_uri f t = Some (p, q) -> "
      "unsafe (percent_decode p) -> fc_coherent (pc_fs c) (snd st) -> exists (body : bytes) (opens : list bytes) (fc' : fcache), "
-     "step_request c st m t k = (XL [XN 400; XB body; XL []; x_list XB opens], (fst st, fc')) /\\ "
+     "step_request_with f (fmt_std c) c st m t k = (XL [XN 400; XB body; XL []; x_list XB opens], (fst st, fc')) /\\ "
      "(body = errpage \\/ pc_fs c (error_path (pc_host c) 400) = Some body) /\\ "
      "Forall (fun o => In o (open_name (pc_tree c) (error_path (pc_host c) 400))) opens /\\ "
-     "(forall f, f <> error_path (pc_host c) 400 -> fc_get f fc' = fc_get f (snd st))"),
+     "(forall f0, f0 <> error_path (pc_host c) 400 -> fc_get f0 fc' = fc_get f0 (snd st))"),
     ("internal_routes_need_override",
-     "forall (c : pcfg) (st : pstate) (m t : bytes) (k : N), benign_host (pc_host c) -> override_of (pc_default_ext c) m (eff_kind t k) = None -> "
-     "step_request (strip_internal c) st m t k = step_request c st m t k"),
+     "forall (f : front) (c : pcfg) (st : pstate) (m t : bytes) (k : N), benign_host (pc_host c) -> "
+     "override_of (pc_default_ext c) m (f_kind f t k) = None -> "
+     "step_request_with f (fmt_std (strip_internal c)) (strip_internal c) st m t k = step_request_with f (fmt_std c) c st m t k"),
     ("opened_objects_confined",
      "forall (h : host_cfg) (rd : bytes -> option bytes) (tree : node) (on : bool) (fc : fcache) (m : meth) (ov : option bytes) "
      "(cached : option reply) (p : bytes) (r : reply) (ev : list event) (fc' : fcache) (os : list bytes) (f : bytes) (stP names : list bytes) (isdir : bool), "
@@ -148,7 +149,9 @@ RULE = ("(a) direct calls of kvarn_utils::parse::sanitize_request (on an http::R
         "reports the hypothesis benign_host as violated, the model must still predict the answers, the confinement oracles are not "
         "applied. (c) the same scenarios through the front door: HTTP/1.1 text (every target form) over a loopback connection whose "
         "server end is handed to the public kvarn::handle_connection (request parsing, host selection, handle_cache, SendKind::send), and "
-        "over TLS + HTTP/2 (ALPN h2, the h2 crate's client, origin-form ':path' incl. double encodings and queries); compared with the "
+        "over TLS + HTTP/2 (ALPN h2): with the h2 crate's client (origin-form ':path' incl. double encodings and queries) and with "
+        "hand-written HEADERS frames (ANY text as ':path': without a leading '/', absolute form, '*', '?x' ...; what "
+        "http::uri::PathAndQuery refuses is refused by the server's h2 layer and never becomes a request); compared with the "
         "same model (a HEAD answer has no body; a request answered by closing the connection / resetting the stream counts as refused) "
         "and checked by the same oracles. (d) the in-process history once more in a child harness process under 'strace -f -e "
         "trace=%file': per request the distinct path strings below the run directory handed to ANY file-related system call (open, "
@@ -195,7 +198,8 @@ TRUSTED = ["modelled: utils/src/parse.rs sanitize_request (path part), parse::ur
            ".run/<pid>-<n>/, request construction, canonicalisation of kvarn's generated error page (by comparison with "
            "kvarn_utils::hardcoded_error_body), content-decoding of bodies; the inotify reader (libc); for the loopback variants a listener "
            "owned by the harness for the whole scenario (the port is never released), a minimal HTTP/1.1 client (one request at a time, "
-           "responses framed by content-length, 8 s timeouts) and the h2 + tokio-rustls client; for the system-call trace /usr/bin/strace "
+           "responses framed by content-length, 8 s timeouts), the h2 + tokio-rustls client and a minimal HTTP/2 client that writes its frames "
+           "itself (HPACK literals; of the response it decodes :status and the DATA frames); for the system-call trace /usr/bin/strace "
            "and the parser of its -xx output; and the Python oracles in driver/props/c01.py (sentinel search, status-400 rule against the "
            "Coq spec component pathsanpipe.spec, CORS rule, opened-objects rule, system-call rule)"]
 EXHAUSTIVE = False
@@ -322,9 +326,10 @@ HANDLERS = [(b"/h", b"HANDLER-h", 2), (b"/a/a.html", b"HANDLER-a-a-html", 0), (b
 METHODS = [b"GET", b"HEAD", b"POST", b"OPTIONS"]
 RARE_METHODS = [b"PUT", b"DELETE", b"PATCH", b"TRACE", b"CONNECT", b"FOO", b"get"]
 INTERNAL_STATUS = (403, 204)
-PIPE_COMPS = ("pathsanpipe.run", "pathsanpipe.wire", "pathsanpipe.h2")
+PIPE_COMPS = ("pathsanpipe.run", "pathsanpipe.wire", "pathsanpipe.h2", "pathsanpipe.h2raw")
 SYS_COMP = "pathsanpipe.sys"    # the in-process history in a child process under strace: (status, path strings handed to file system calls)
 SPEC_OF = {"pathsanpipe.run": "pathsanpipe.spec", "pathsanpipe.wire": "pathsanpipe.wire_spec", "pathsanpipe.h2": "pathsanpipe.h2_spec",
+           "pathsanpipe.h2raw": "pathsanpipe.h2raw_spec",
            SYS_COMP: "pathsanpipe.spec"}
 ALIAS = "alias"   # pseudo method of a history step (ALIAS, from, to): copy the response-cache entry under `from` to the key `to`
 UNSAFE_TARGETS = [b"/../secret.txt", b"/./cors_fail", b"/./cors_options", b"//etc/passwd", b"/%2e%2e/secret.txt", b"/a/../index.html", b"/../",
@@ -649,6 +654,15 @@ def pipe_cases(rng, tier):
         cases.append(pipe_case(rand_cfgkey(rng), history(rng, rng.randrange(10, 31)), "h2-history", "pathsanpipe.h2"))
         cases.append(pipe_case(rand_cfgkey(rng), [(b"GET" if rng.random() < 0.8 else rng.choice(METHODS), climb_target(rng), 0) for _ in range(25)],
                                "h2-climb", "pathsanpipe.h2"))
+    # 11b. TLS + HTTP/2 with hand-written HEADERS frames: ANY text as ':path' (no leading '/', absolute form, '*', '?x', ...): what
+    #      http::uri::PathAndQuery refuses never becomes a request, the rest is sanitised like any other path
+    for de in (True, False):
+        for ch in chunks(directed + OTHER_FORMS, 40):
+            cases.append(pipe_case((de, True, True, b"public", D0, True, False), [(b"GET", t, 0) for t in ch], "h2raw-directed", "pathsanpipe.h2raw"))
+    for _ in range(n // 8):
+        cases.append(pipe_case(rand_cfgkey(rng), history(rng, rng.randrange(10, 31)), "h2raw-history", "pathsanpipe.h2raw"))
+        cases.append(pipe_case(rand_cfgkey(rng), [(rng.choice(METHODS) if rng.random() < 0.3 else b"GET", other_form_target(rng), rng.choice([0, 0, 0, 2, 3]))
+                                                 for _ in range(25)], "h2raw-target-forms", "pathsanpipe.h2raw"))
     # 12. under a system-call trace (strace -f -e trace=%file on a child harness process): every path string handed to open / stat /
     #     access ..., successful or not (inotify sees successful opens only)
     for de in (True, False):
@@ -737,7 +751,7 @@ def _files(c):
 
 
 def _headless(c, r, body):
-    return c.comp in ("pathsanpipe.wire", "pathsanpipe.h2") and r[1][0][1] == b"HEAD" and body == b""
+    return c.comp in ("pathsanpipe.wire", "pathsanpipe.h2", "pathsanpipe.h2raw") and r[1][0][1] == b"HEAD" and body == b""
 
 
 def pipe_spec_ok(c, i, s):
@@ -806,7 +820,7 @@ def extra_oracle(c, i):
         m, k = r[1][0][1], r[1][2][1]
         # Cors::is_part_of_origin compares the AUTHORITY of the URI ("localhost" + what the target has before its first '/', '?', '#')
         # with the Origin header's: with such a target the site's own Origin is a foreign one
-        if r[1][1][1][:1] not in (b"/", b"?", b"#"):
+        if c.comp in ("pathsanpipe.run", "pathsanpipe.wire") and r[1][1][1][:1] not in (b"/", b"?", b"#"):
             k = {1: 2, 4: 3}.get(k, k)
         may_override = default_ext and (k in (2, 3) or (k == 4 and m == b"OPTIONS"))
         if not may_override and (status in INTERNAL_STATUS or body == CORS_DENIED):
@@ -964,5 +978,5 @@ def extra_coverage(cases, impl, model, spec):
     return {"targets_in_batches": sum(c.meta.get("targets", 0) for c in cases if c.comp == "pathsan.batch"),
             "pipeline_histories": len(pc), "pipeline_requests": sum(c.meta.get("requests", 0) for c in pc),
             "of_which_over_loopback_http1": sum(c.meta.get("requests", 0) for c in pc if c.comp == "pathsanpipe.wire"),
-            "of_which_over_tls_http2": sum(c.meta.get("requests", 0) for c in pc if c.comp == "pathsanpipe.h2"),
+            "of_which_over_tls_http2": sum(c.meta.get("requests", 0) for c in pc if c.comp in ("pathsanpipe.h2", "pathsanpipe.h2raw")),
             "of_which_under_a_system_call_trace": sum(c.meta.get("requests", 0) for c in pc if c.comp == SYS_COMP)}
